@@ -91,8 +91,12 @@ def warmup():
     class IO:
         def progress(self, o):
             pass
+    found = []
     for i, tpl in enumerate(TEMPLATES * 2):
-        run_job({'i': i, 'seed': 777, 'tpl': tpl, '_warm': True}, IO())
+        found.extend(run_job({'i': i, 'seed': 777, 'tpl': tpl, '_warm': True}, IO()).get('violations') or [])  # what a warm-up run finds counts
+        if found:
+            break
+    return found
 
 
 # --------------------------------------------------------------------------------------------------
